@@ -1,6 +1,7 @@
 import SJ.Properties.C13
 import SJ.Proofs.SourceLevelB
 import SJ.Proofs.SourceLevelC
+import SJ.Proofs.SourceLevelF
 set_option linter.unusedVariables false
 /-
 C13 — source level. The theorems of Properties/C13.lean composed with the source ties of DESIGN §6.3: each statement
@@ -193,5 +194,51 @@ theorem C13_source_history_readback (ops : List EOp) (pj : PJ) (v : LVal) (hok :
       ∃ st, runFun goFuns goIter_MarshalJSONBuffer F ⟨initEnv pj' (iterOn pj' v.pos) dst, pj'.tape⟩ =
           .ret st [.bytes (dst ++ renderJ (erase (absOps v ops))), .bool false] ∧ st.tape = pj'.tape :=
   SJ.SourceLevelC.C13_source_history_readback ops pj v hok ht hv hfl hmsg hstr fuel hf dst F hF
+
+open SJ.Generated SJ.GoSem SJ.GoIter SJ.GoSet SJ.Layout SJ.SourceLevelF SJ.Tables SJ.WalkLayout SJ.Lookup SJ.DeleteDoc SJ.MarshalExact SJ.RenderParse SJ.Numeric SJ.EditHistory SJ.GoObject SJ.GoMarshal SJ.GoArrMarshal SJ.GoDelete SJ.SourceLevelB SJ.SourceLevelE in
+/-- **`SetInt`, then read back, source level** (the source-level counterpart of `C13_setInt_then_read`).  On a tape holding the
+    located document `v` (gaps anywhere) with the receiver on the two-word scalar node at `q` whose tag passes the gate:
+    running the regenerated `goIter_SetInt` with the argument `z` returns `nil`, and on the tape it leaves — read with the
+    unchanged string buffer and message —
+    * the receiver is where it was, now with tag `'l'` and `cur = uint64(z)`;
+    * **typed read-back**: running the regenerated `Iter.Int` on the receiver the run left returns `int64(uint64(z))` — `z`
+      itself when `−2^63 ≤ z < 2^63` (a Go `int64` always is) — and `nil`; receiver and tape untouched (`Iter.Int` via its tie
+      `GoNum`, `C12_source_int_exact`);
+    * **whole-document read-back**: from ANY iterator `j` standing on the document (`OnNode`) whose view lies inside the
+      tape, the regenerated `Iter.MarshalJSONBuffer` returns `dst ++` the canonical text of `v` with exactly the node at `q`
+      replaced by the integer, and `nil`; the iterator standing on the document's first word with the whole tape as its
+      view (`iterOn`) is such an iterator.
+    The property's reader `owalkValue` is a walker of the hand model without a source tie; as in
+    `C13_source_history_readback` the reader here is `Iter.MarshalJSONBuffer` (tie `GoMarshal`).  It skips NOP words
+    everywhere, so `Tight v` — which the property needs because `owalkValue` walks objects with `NextElementBytes` — is not
+    needed.  Route: `C13_setInt` ∘ `SetInt` tie (`C13_source_setInt`), then `C12_int_exact` ∘ `Int` tie and
+    `C10_marshal_exact` ∘ `MarshalJSONBuffer` tie on the resulting tape.
+    Discharged: for `Iter.Int`, everything (the receiver keeps its view; the value word is the one just written); for the
+    marshaller, `cur < 2^63`, `0 ≤ addNext`, non-divergence, `FloatsOk` of the edited document (from `FloatsOk v`).
+    Remaining: `hl` (the editing view is a prefix of the tape), `FloatsOk v` (a NaN/Inf float elsewhere in the document has
+    no JSON text), `BufOK pj` (buffer lengths are Go `int`s), `j.lim ≤ len(tape)`, the marshaller's loop budget. -/
+theorem C13_source_setInt_then_read (pj : PJ) (v : LVal) (hok : Ok pj v) (q : Nat) (hnode : HasNode q (q + 2) v) (i : Iter)
+    (hoff : i.off = q + 1) (hview : i.off < i.lim) (hl : i.lim ≤ pj.tape.size)
+    (ht : inCase (caseOf swSetInt 0) i.t = true) (z : Int) (fuel : Nat) (hfl : FloatsOk v) (hb : BufOK pj) :
+    ∃ s, runFun goFuns goIter_SetInt fuel
+        { env := envOf "i" i ++ [("Strings.B", .bytes pj.strings), ("v", .int z)], tape := pj.tape } = .ret s [.bool false] ∧
+      s.env.get "Strings.B" = some (.bytes pj.strings) ∧ s.tape.size = pj.tape.size ∧
+      iterAt s.env "i" = some { i with t := tagInteger, cur := ofInt64 z } ∧
+      Ok { tape := s.tape, strings := pj.strings, msg := pj.msg } (substV q (.int (ofInt64 z) q) v) ∧
+      (∀ F, ∃ s', runFun goFuns goIter_Int F
+            { env := envOf "i" { i with t := tagInteger, cur := ofInt64 z }, tape := s.tape } =
+          .ret s' [.int (toInt64 (ofInt64 z)), .bool false] ∧ s'.tape = s.tape ∧
+          iterAt s'.env "i" = some { i with t := tagInteger, cur := ofInt64 z }) ∧
+      (-(2 ^ 63 : Int) ≤ z → z < 2 ^ 63 → toInt64 (ofInt64 z) = z) ∧
+      (∀ (j : Iter) (dst : Bytes) (F : Nat),
+        OnNode { tape := s.tape, strings := pj.strings, msg := pj.msg } (substV q (.int (ofInt64 z) q) v) j →
+        j.lim ≤ s.tape.size → 2 * s.tape.size + j.lim + 25 ≤ F →
+        ∃ st, runFun goFuns goIter_MarshalJSONBuffer F
+            ⟨initEnv { tape := s.tape, strings := pj.strings, msg := pj.msg } j dst, s.tape⟩ =
+          .ret st [.bytes (dst ++ renderJ (erase (substV q (.int (ofInt64 z) q) v))), .bool false] ∧
+          st.tape = s.tape) ∧
+      OnNode { tape := s.tape, strings := pj.strings, msg := pj.msg } (substV q (.int (ofInt64 z) q) v)
+        (iterOn { tape := s.tape, strings := pj.strings, msg := pj.msg } v.pos) :=
+  SJ.SourceLevelF.C13_source_setInt_then_read pj v hok q hnode i hoff hview hl ht z fuel hfl hb
 
 end SJ.Properties.C13
